@@ -547,6 +547,9 @@ func (x *Exec) doCall(fr *frame, c *ssa.CallCommon) Val {
 	case *ssa.Builtin:
 		return x.builtin(f, args, c)
 	case Fn:
+		if f.Native != nil {
+			return f.Native(args)
+		}
 		if f.F == nil {
 			x.fail("nil-deref", "")
 		}
